@@ -601,6 +601,17 @@ Section Phases.
     repeat split; try lia. intros a' [<- | Hin]; [rewrite E; cbn; lia | auto].
   Qed.
 
+  Lemma first_bounds_end ps : forall b a, In a ps ->
+    fst (first_of colflow a) + snd (first_of colflow a) <= snd (first_bounds colflow ps b).
+  Proof.
+    induction ps as [|a0 r IH]; intros b a; [intros []|]. intros [<- | Hin].
+    - unfold first_bounds. cbn [fold_left]. destruct (first_of colflow a0) as [k size] eqn:E.
+      pose proof (first_bounds_spec r (Z.min k (fst b), Z.max (k + size) (snd b))) as [_ [B _]].
+      unfold first_bounds in B. cbn [fst snd] in *. lia.
+    - unfold first_bounds. cbn [fold_left]. destruct (first_of colflow a0) as [k size].
+      apply (IH _ a Hin).
+  Qed.
+
   (* ---- 1.4 *)
   Variables is1 is2 if1 : Z.
 
@@ -663,6 +674,41 @@ Section Phases.
     assert (C1 : chain (st_log st) (st_log st1)) by (rewrite E; constructor; [constructor | assumption | assumption]).
     split; [eapply chain_trans; eauto|].
     intros j jt [Ej | Hin]; [|eauto]. inversion Ej; subst. eapply chain_placed; [exact C|]. rewrite E, is_placed_cons, Nat.eqb_refl. reflexivity.
+  Qed.
+
+  (* implicit_first_2 is extended to the end line of every area placed by 1.4 *)
+  Definition first_end (a : area) : Z := fst (first_of colflow a) + snd (first_of colflow a).
+
+  Lemma step14_end st i it st' : step14 colflow dense is1 is2 if1 st (i, it) = Ok st' ->
+    st_if2 st <= st_if2 st' /\ exists a, st_log st' = (i, a) :: st_log st /\ first_end a <= st_if2 st'.
+  Proof.
+    unfold step14, first_end. destruct (get_placement (snd_s colflow it) (snd_e colflow it)) as [[si ssz]|] eqn:E.
+    - destruct dense.
+      + destruct (first_search colflow _ false _ _ if1 si ssz _ if1) as [[[k fi] fsz]|] eqn:S; [|discriminate].
+        intros H; inversion H; subst; cbn [st_log st_if2]. unfold bump. split; [split_ifs; lia|].
+        eexists; split; [reflexivity|]. rewrite first_of_mk. cbn. split_ifs; lia.
+      + match goal with |- context[first_search colflow ?f true ?g ?e ?c si ssz ?p ?k] =>
+          destruct (first_search colflow f true g e c si ssz p k) as [[[k' fi] fsz]|] eqn:S end; [|discriminate].
+        intros H; inversion H; subst; cbn [st_log st_if2]. unfold bump. split; [split_ifs; lia|].
+        eexists; split; [reflexivity|]. rewrite first_of_mk. cbn. split_ifs; lia.
+    - match goal with |- context[auto_loop ?a ?b ?c ?d ?e ?f ?g ?h ?i ?j ?k ?l] =>
+        destruct (auto_loop a b c d e f g h i j k l) as [[[[[a' fi] fsz] cf'] if2']|] eqn:S end; [|discriminate].
+      apply auto_loop_result in S as [_ [S2 [cs' [_ [_ S]]]]]. apply scan_second_result in S as [_ [k' [z [_ [-> _]]]]].
+      intros H; inversion H; subst; cbn [st_log st_if2]. unfold bump. split; [split_ifs; lia|].
+      eexists; split; [reflexivity|]. rewrite first_of_mk. cbn. split_ifs; lia.
+  Qed.
+
+  Lemma phase14_end rem : forall st st', phase14 colflow dense is1 is2 if1 rem st = Ok st' ->
+    (forall p, In p (st_log st) -> first_end (snd p) <= st_if2 st) ->
+    st_if2 st <= st_if2 st' /\ forall p, In p (st_log st') -> first_end (snd p) <= st_if2 st'.
+  Proof.
+    induction rem as [|[i it] r IH]; intros st st'; cbn [phase14].
+    { intros H; inversion H; subst. intros Hb. split; [lia | exact Hb]. }
+    destruct (step14 colflow dense is1 is2 if1 st (i, it)) as [st1|] eqn:S; try discriminate.
+    intros H Hb. destruct (step14_end _ _ _ _ S) as [M [a [E A]]].
+    destruct (IH _ _ H) as [M' B].
+    - intros p Hp. rewrite E in Hp. destruct Hp as [<- | Hp]; [exact A | specialize (Hb p Hp); lia].
+    - split; [lia | exact B].
   Qed.
 End Phases.
 
@@ -889,12 +935,13 @@ Lemma grid_place_setup tc tr colflow dense items : valid_items items ->
     rem = filter (fun p => match lookup_area (fst p) l2 with None => true | Some _ => false end) children /\
     (forall i it, In (i, it) rem -> rem_ok colflow is1 is2 it /\ snd_within colflow is1 is2 it) /\
     (forall p, In p l2 -> if1 <= fst (first_of colflow (snd p)) /\ is1 <= fst (second_of colflow (snd p)) /\
-                          fst (second_of colflow (snd p)) + snd (second_of colflow (snd p)) <= is2) /\
+                          fst (second_of colflow (snd p)) + snd (second_of colflow (snd p)) <= is2 /\
+                          first_end colflow (snd p) <= if2) /\
     (forall i it, In (i, it) children -> fully_auto it -> In (i, it) rem) /\
     (forall i it, In (i, it) children -> is_placed i l2 = true \/ In (i, it) rem) /\
     grid_place_log tc tr colflow dense items =
       match phase14 colflow dense is1 is2 if1 rem (mkState l2 if1 is1 if2) with
-      | Ok st => Ok (st_log st, bounds_of colflow if1 (st_if2 st) is1 is2)
+      | Ok st => Ok (st_log st, bounds_of colflow if1 (Z.max (st_if2 st) (if1 + 1)) is1 (Z.max is2 (is1 + 1)))
       | OutOfFuel => OutOfFuel
       end.
 Proof.
@@ -916,13 +963,13 @@ Proof.
   destruct (phase12_spec colflow dense children _ _ Hv Hd Hpos1 E12) as [C12 Q12].
   pose proof (phase12_nodup colflow dense children _ _ ND1 E12) as ND2.
   unfold grid_place_log. fold doc. fold children. rewrite E12.
-  set (s0 := if colflow then Z.max 1 tr else Z.max 1 tc).
+  set (s0 := if colflow then tr else tc).
   destruct (phase132 colflow children l2 (0, s0)) as [[is1 is2a] rem] eqn:E132.
   pose proof (phase132_filter colflow children l2 (0, s0)) as Frem. rewrite E132 in Frem. cbn [snd] in Frem.
   destruct (phase132_spec colflow children l2 _ _ _ E132) as [B1 [B2 [R1 [R2 [R3 R4]]]]]. cbn [fst snd] in *.
   destruct (phase133_spec colflow rem is1 is2a) as [B3 R5].
   set (is2 := phase133 colflow rem is1 is2a) in *.
-  set (f0 := if colflow then Z.max 1 tc else Z.max 1 tr).
+  set (f0 := if colflow then tc else tr).
   destruct (first_bounds colflow (areas l2) (0, f0)) as [if1 if2] eqn:EFB.
   pose proof (first_bounds_spec colflow (areas l2) (0, f0)) as [FB1 [FB2 FB3]]. rewrite EFB in FB1, FB2, FB3. cbn [fst snd] in *.
   exists (phase11 doc []), l2, is1, is2, if1, if2, rem.
@@ -942,7 +989,9 @@ Proof.
   { intros [i a] Hin. cbn [snd]. split; [apply FB3; unfold areas; apply in_map_iff; exists (i, a); auto|].
     assert (Pl : is_placed i l2 = true) by (apply is_placed_in, in_map_iff; exists (i, a); auto).
     destruct (Hchild i Pl) as [it Hc]. pose proof (in_lookup i a l2 ND2 Hin) as L.
-    destruct (R3 i it a Hc L) as [W1 W2]. cbn [fst snd] in *. lia. }
+    destruct (R3 i it a Hc L) as [W1 W2]. cbn [fst snd] in *.
+    pose proof (first_bounds_end colflow (areas l2) (0, f0) a) as FE. rewrite EFB in FE. cbn [snd] in FE.
+    repeat split; try lia. apply FE. unfold areas. apply in_map_iff. exists (i, a). auto. }
   split.
   { intros i it Hc [FA1 FA2]. rewrite Frem. apply filter_In. split; [exact Hc|]. cbn [fst].
     destruct (lookup_area i l2) as [a|] eqn:L; [|reflexivity]. exfalso.
@@ -1084,8 +1133,28 @@ Proof.
   destruct (Hl i _ Pi) as [_ Li]. symmetry in Li. apply lookup_in in Li. rewrite En in Li.
   assert (B : if1 <= fst (first_of colflow (x, y, w, h)) /\ is1 <= fst (second_of colflow (x, y, w, h)) /\
               fst (second_of colflow (x, y, w, h)) + snd (second_of colflow (x, y, w, h)) <= is2).
-  { apply in_app_or in Li as [Li | Li]; [apply (Bn _ Li) | apply (B2 _ Li)]. }
+  { apply in_app_or in Li as [Li | Li]; [apply (Bn _ Li) | destruct (B2 _ Li) as [Q1 [Q2 [Q3 _]]]; cbn [snd] in *; auto]. }
   unfold bounds_of, first_of, second_of in *. destruct colflow; inversion El2; subst; cbn in B; lia.
+Qed.
+
+(* ... and, since implicit_first_2 follows every placed area, inside the implicit grid on both axes *)
+Theorem grid_inside_implicit_grid tc tr colflow dense items pl x1 x2 y1 y2 :
+  valid_items items -> grid_place tc tr colflow dense items = Ok (pl, (x1, x2, y1, y2)) ->
+  forall i x y w h, nth_error pl i = Some (Some (x, y, w, h)) ->
+    x1 <= x /\ x + w <= x2 /\ y1 <= y /\ y + h <= y2.
+Proof.
+  intros Hval Hok i x y w h Pi.
+  pose proof (grid_inside_implicit_bounds _ _ _ _ _ _ _ _ _ _ Hval Hok i x y w h Pi) as B0.
+  destruct (grid_place_lookup _ _ _ _ _ _ _ Hok) as [l [El [_ Hl]]].
+  destruct (grid_place_setup tc tr colflow dense items Hval)
+    as [l1 [l2 [is1 [is2 [if1 [if2 [rem [E1 [P1 [_ [C12 [_ [_ [Hrem [B2 [_ [_ E]]]]]]]]]]]]]]]]].
+  rewrite E in El. destruct (phase14 colflow dense is1 is2 if1 rem _) as [st|] eqn:P14; try discriminate.
+  inversion El as [[El1 El2]]. clear El. subst l.
+  destruct (phase14_end colflow dense is1 is2 if1 rem _ _ P14) as [_ Hend].
+  { cbn [st_log st_if2]. intros p Hp. destruct (B2 p Hp) as [_ [_ [_ Q]]]. exact Q. }
+  destruct (Hl i _ Pi) as [_ Li]. symmetry in Li. apply lookup_in in Li.
+  specialize (Hend _ Li). unfold first_end, first_of in Hend. cbn [snd] in Hend.
+  unfold bounds_of in El2. destruct colflow; inversion El2; subst; cbn in Hend; lia.
 Qed.
 
 Lemma phase14_split colflow dense is1 is2 if1 r1 c r2 st st' :
@@ -1292,9 +1361,9 @@ Theorem layout_placement tc tr colflow dense items pl x1 x2 y1 y2 :
   length pl = length items /\
   forall i it, nth_error items i = Some it ->
     exists x y w h, nth_error pl i = Some (Some (x, y, w, h)) /\ 1 <= w /\ 1 <= h /\
-      0 <= x - x1 /\ 0 <= y - y1 /\ (if colflow then y + h <= y2 else x + w <= x2) /\
-      (forall cx cw cy ch, css_range (Z.max 1 tc) (col_s it) (col_e it) = Some (cx, cw) ->
-                           css_range (Z.max 1 tr) (row_s it) (row_e it) = Some (cy, ch) ->
+      0 <= x - x1 /\ 0 <= y - y1 /\ x + w <= x2 /\ y + h <= y2 /\
+      (forall cx cw cy ch, css_range tc (col_s it) (col_e it) = Some (cx, cw) ->
+                           css_range tr (row_s it) (row_e it) = Some (cy, ch) ->
                            (x, y, w, h) = (cx, cy, cw, ch)).
 Proof.
   intros Hval Hok. pose proof (resolve_valid tc tr items Hval) as Hv'.
@@ -1302,16 +1371,16 @@ Proof.
   split; [exact Hlen|]. intros i it Ii.
   assert (Hi : (i < length items)%nat) by (apply nth_error_Some; congruence).
   destruct (Hall i Hi) as [x [y [w [h [Pi [Hw Hh]]]]]]. exists x, y, w, h.
-  pose proof (grid_inside_implicit_bounds _ _ _ _ _ _ _ _ _ _ Hv' Hok i x y w h Pi) as B.
+  pose proof (grid_inside_implicit_grid _ _ _ _ _ _ _ _ _ _ Hv' Hok i x y w h Pi) as B.
   split; [exact Pi|]. split; [exact Hw|]. split; [exact Hh|].
-  split; [destruct colflow; lia|]. split; [destruct colflow; lia|]. split; [destruct colflow; lia|].
+  split; [lia|]. split; [lia|]. split; [lia|]. split; [lia|].
   intros cx cw cy ch Cc Cr.
   assert (V : item_valid it = true) by (apply Hval; eapply nth_error_In; eauto).
   apply item_valid_parts in V as [V1 [V2 [V3 V4]]].
   pose proof (grid_definite_honoured _ _ _ _ _ _ _ Hv' Hok i (resolve_item tc tr it) cx cw cy ch
                 (map_nth_error _ _ _ Ii)) as G.
   cbn [resolve_item col_s col_e row_s row_e] in G.
-  rewrite (placement_is_css (Z.max 1 tc) _ _ V1 V2), (placement_is_css (Z.max 1 tr) _ _ V3 V4) in G.
+  rewrite (placement_is_css tc _ _ V1 V2), (placement_is_css tr _ _ V3 V4) in G.
   specialize (G Cc Cr). rewrite Pi in G. inversion G. reflexivity.
 Qed.
 
@@ -1358,18 +1427,11 @@ Proof.
   do 10 eexists. repeat split; try reflexivity; cbn; lia.
 Qed.
 
-(* F-f  the implicit grid is not extended on the flow axis for an auto-placed item that spans past its end
-   (sparse: never; dense: one track too few): `grid-row: span 3` in a grid of 2 rows occupies rows 0-2 but
-   implicit_y2 stays 2, so no third row track is created *)
-Theorem grid_first_axis_bound_refuted :
-  exists items pl x1 x2 y1 y2 x y w h, valid_items items /\
-    grid_place 3 2 false false items = Ok (pl, (x1, x2, y1, y2)) /\
-    nth_error pl 0 = Some (Some (x, y, w, h)) /\ y2 < y + h.
-Proof.
-  exists [it_ GAuto GAuto (GSpan 3) GAuto]. do 9 eexists.
-  split; [intros it H; cbn in H; repeat (destruct H as [<- | H]; [reflexivity|]); destruct H|].
-  split; [vm_compute; reflexivity|]. split; [reflexivity | cbn; lia].
-Qed.
+(* fixed in /repo (F73): `grid-row: span 3` in a grid of 2 rows creates the third row track, sparse and dense *)
+Example grid_span_creates_tracks :
+  grid_place 3 2 false false [it_ GAuto GAuto (GSpan 3) GAuto] = Ok ([Some (0, 0, 1, 3)], (0, 3, 0, 3)) /\
+  grid_place 3 2 false true [it_ GAuto GAuto (GSpan 3) GAuto] = Ok ([Some (0, 0, 1, 3)], (0, 3, 0, 3)).
+Proof. split; vm_compute; reflexivity. Qed.
 
 (* F-c  an item locked to a row that is otherwise empty is put on the SECOND column: `max(occupied or [0]) + 1` *)
 Theorem grid_locked_item_skips_first_cell :
